@@ -11,7 +11,7 @@ ENV.pop('WAYLAND_DEBUG', None)
 PROMPT = 'wl debug $ '
 
 
-def file_mode_lines(trace, render, timeout=120):
+def file_mode_lines(trace, render, timeout=120, mode='file'):
     """-> (stdout lines, Error:/Warning: lines of stderr, exit status, raw stderr); the session must be lines, eof, commands"""
     evs = [e['in'] for e in trace['events']]
     k = next((i for i, e in enumerate(evs) if e['e'] == 'eof'), len(evs))
@@ -36,15 +36,23 @@ def file_mode_lines(trace, render, timeout=120):
         stop = next((i for i, e in enumerate(evs[k + 1:]) if e['c'] in ('quit', 'resume')), None)
         typed = cmds if stop is None else cmds[:stop + 1]
         stdin = '\n'.join(typed + ([] if stop is not None else ['quit'])) + '\n'
+        if mode == 'run':
+            # the same lines written by a program to its standard error, the commands typed at the prompt that follows its exit
+            sched = os.path.join(tmp, 'sched.json')
+            json.dump({'chunks': [[0, '\n'.join(lines) + ('\n' if lines else '')]], 'status': 0, 'stdout': [], 'linger': 0}, open(sched, 'w'))
+            how = ['-r', PY, os.path.join(os.path.dirname(os.path.abspath(__file__)), 'child.py'), sched]
+        else:
+            how = ['-l', log]
         try:
-            p = subprocess.run([PY, os.path.join(e1.REPO, 'main.py')] + opts + ['-l', log], cwd=e1.REPO, env=ENV, input=stdin.encode('utf-8'),
+            p = subprocess.run([PY, os.path.join(e1.REPO, 'main.py')] + opts + how, cwd=e1.REPO, env=ENV, input=stdin.encode('utf-8'),
                                stdout=subprocess.PIPE, stderr=subprocess.PIPE, timeout=timeout)
         except subprocess.TimeoutExpired:
             return None, None, None, 'the tool did not finish within %d s' % timeout
     finally:
         import shutil
         shutil.rmtree(tmp, ignore_errors=True)
-    out = p.stdout.decode('utf-8', 'replace').replace(PROMPT, '')
+    import re
+    out = re.sub(r'CHILD-STDOUT [^\n]*\n', '', p.stdout.decode('utf-8', 'replace')).replace(PROMPT, '')
     err = p.stderr.decode('utf-8', 'replace')
     return ([l for l in out.split('\n') if l != ''], [l for l in err.split('\n') if l.startswith(('Error: ', 'Warning: '))], p.returncode, err)
 
@@ -82,9 +90,9 @@ def kind_of(line, chan='out'):
     return it['k']
 
 
-def compare(trace, render):
+def compare(trace, render, mode='file'):
     """-> None if the process shows what the in-process run shows, else (kinds involved, description)"""
-    got_out, got_err, rc, raw_err = file_mode_lines(trace, render)
+    got_out, got_err, rc, raw_err = file_mode_lines(trace, render, mode=mode)
     if got_out is None:
         return {'crash'}, raw_err
     want_out, want_err, ref = reference_lines(trace, render)
